@@ -133,6 +133,7 @@ type Machine struct {
 	conds        map[*Value]*condState
 	lazyBoot     bool   // this machine runs a package initialiser (lazyInit): no nested lazy initialisation
 	raceExempt   int    // >0: accesses are not recorded by the race analysis (model-internal registries)
+	baseMaxLoop  int    // the configured loop bound (verifMaxLoop lowers cfg.MaxLoop for one path)
 	fsFault      bool   // every open fails with EMFILE (verifFsFault)
 	advPath      string // path the environment may create (verifFsAdversary)
 	advActed     bool
@@ -165,6 +166,7 @@ type Machine struct {
 	outOfBound    int
 	tempSeq       int
 	openFiles     map[*Value]string
+	csvReaders map[*Value]*csvReader
 	csvFiles      map[string]*csvFile
 	pools         map[*Value][]Value
 	syncMaps      map[*Value]*Map
@@ -817,6 +819,10 @@ func (m *Machine) resetPath(prefix []int32) {
 	m.advPath, m.advActed, m.advGen = "", false, 0
 	m.atomicVals, m.conds = nil, nil
 	m.fsFault = false
+	if m.baseMaxLoop == 0 {
+		m.baseMaxLoop = m.cfg.MaxLoop
+	}
+	m.cfg.MaxLoop = m.baseMaxLoop
 	m.raceExempt = 0
 	m.preemptBound = 2
 	m.mutexes = map[*Value]*mutexState{}
@@ -869,6 +875,18 @@ func (m *Machine) RunPath(fn *ssa.Function, prefix []int32) (res PathResult, wor
 			case pathEnd:
 				res.Kind = r.kind
 				res.Msg = r.msg
+				if r.kind == EndUnwind && !m.replaying() {
+					// the path did not end within the unwind bound: possibly a non-terminating
+					// run. Its inputs are handed to the native replay, which decides (a run that
+					// does not finish within the hang limit is a confirmed violation; one that
+					// does finish leaves the path inconclusive).
+					func() {
+						defer func() { recover() }()
+						if sr, as := m.model(nil); sr == Sat && as != nil {
+							res.Violation = m.mkViolation("NONTERMINATION", "the run did not end within the unwind bound ("+r.msg+")", as)
+						}
+					}()
+				}
 			case violationEnd:
 				res.Kind = EndAssertFail
 				if r.v.Kind != "ASSERT-FAIL" {
